@@ -11,7 +11,11 @@ import (
 // judgeSeqCase: whole-script comparison with the reference semantics plus per-statement
 // comparison through prefix attribution.
 func judgeSeqCase(w *mc.Worker, c *seqCase, vars map[string]string, bal env.Bal, owns ownsFn, nontriv nontrivFn, attributeStmts bool) {
-	st := env.New(env.Exact, bal, nil)
+	judgeSeqCaseMode(w, c, vars, bal, owns, nontriv, attributeStmts, env.Exact)
+}
+
+func judgeSeqCaseMode(w *mc.Worker, c *seqCase, vars map[string]string, bal env.Bal, owns ownsFn, nontriv nontrivFn, attributeStmts bool, mode env.Mode) {
+	st := env.New(mode, bal, nil)
 	out := RunReal(c.PR, vars, st, nil)
 	in := ref.Inputs{Vars: vars, Bal: bal}
 	model := ref.Run(c.Prog, in)
@@ -26,7 +30,7 @@ func judgeSeqCase(w *mc.Worker, c *seqCase, vars map[string]string, bal env.Bal,
 			w.Count("unattributable", 1)
 		}
 	}
-	key := c.Text + "|" + varsStr(vars) + "|" + balStr(bal)
+	key := c.Text + "|" + varsStr(vars) + "|" + balStr(bal) + "|" + mode.String()
 	outcome := "model=" + orOK(model.Err) + " real=" + out.Class()
 	if model.Err == "" {
 		outcome += fmt.Sprintf(" stmts=%d postings=%d attributed=%v", len(c.Stmts), len(out.Postings), attributed)
@@ -34,7 +38,7 @@ func judgeSeqCase(w *mc.Worker, c *seqCase, vars map[string]string, bal env.Bal,
 	nt := nontriv != nil && nontriv(model, out)
 	w.Eval(key, nt, outcome)
 	mk := func() Case {
-		cs := Case{Script: c.Text, Vars: copyVars(vars), Balances: balStr(bal), Observed: out.Class() + ": " + postingsStr(out.Postings)}
+		cs := Case{Script: c.Text, Vars: copyVars(vars), Balances: balStr(bal), Store: mode.String(), Observed: out.Class() + ": " + postingsStr(out.Postings)}
 		if out.Err != nil {
 			cs.Observed = out.Class() + ": " + out.Err.Error()
 		}
